@@ -5,6 +5,7 @@ import IrVerif.Lemmas.ScopeTree
 import IrVerif.Lemmas.ScopeIdem
 import IrVerif.Lemmas.ScopeKernel
 import IrVerif.Lemmas.ScopeReplDeser
+import IrVerif.Lemmas.ScopeModel
 namespace IrVerif.Scope
 
 /-- **C17_total**: `deserialize` is a total function on every `GraphP`, with no well-formedness
@@ -271,6 +272,27 @@ theorem C17_idempotent (p : GraphP) (w : World) (hd : deserialize p = .ok w) :
       serialize w = .ok (w1, q) ∧ deserialize q = .ok D ∧ serialize D = .ok (w2, q) :=
   reloadable_fixpoint w (deserialize_reloadable p w hd)
 
+/-- **C17_total_model**: deserialization of a model with functions terminates with a value or an error -/
+theorem C17_total_model (P : ModelP) :
+    (∃ m, deserializeM P = .ok m) ∨ (∃ e, deserializeM P = .error e) := by
+  cases h : deserializeM P with
+  | ok m => exact .inl ⟨m, rfl⟩
+  | error e => exact .inr ⟨e, rfl⟩
+
+/-- **C17_idempotent_model_partial**: idempotence for MODELS WITH FUNCTIONS (IR version >= 10 format).
+    Excluded shape, spelled out: two `FunctionProto`s of the model carry the same identifier
+    (domain, name, overload) — `hid` requires the identifiers of the proto to be distinct.  (With a
+    duplicate the real code keeps the last function at the position of the first; the first serialization
+    then drops the others, and the store still holds their values.  That case is covered by the
+    correspondence check and the oracle only.)  Everything else is as in `C17_idempotent`: dangling,
+    duplicate, shadowed names in the main graph and inside functions, function outputs that are inputs or
+    placeholders, value_info entries for function inputs. -/
+theorem C17_idempotent_model_partial (P : ModelP) (m : MWorld) (hd : deserializeM P = .ok m)
+    (hid : (P.funcs.map (·.id)).Nodup) :
+    ∃ (m1 : MWorld) (Q : ModelP) (D : MWorld) (m2 : MWorld),
+      serializeM m = .ok (m1, Q) ∧ deserializeM Q = .ok D ∧ serializeM D = .ok (m2, Q) :=
+  reloadableM_fixpoint m (deserializeM_reloadable P m hd hid)
+
 /-- **C17_idempotent_partial**: if deserialization returns an IR `w` that is `Serializable` (the names
     of the proto were SSA per scope chain, every reference resolved to a definition of an enclosing
     scope, graph outputs were produced in their graph, no empty / duplicate names needed for
@@ -334,5 +356,19 @@ example : ∃ w, deserialize exampleSSA = .ok w ∧ Serializable w := by
 /-- and they exclude something: the deserialization of `exampleProto` (dangling `ghost`, `q`) is not
     `serializableB` -/
 example : deserSerializableB exampleProto = false := by decide +kernel
+
+/-- a model with a function: input `a` with a value_info entry, a dangling name `zz`, a trailing empty
+    output, the function output `c` produced by the node -/
+def exampleModel : ModelP :=
+  ⟨exampleSSA,
+    [⟨⟨"dom", "f", ""⟩, ["a", "b"], ["c", "a"], [⟨"c", { ty := some "f32" }⟩, ⟨"a", { ty := some "f32", sh := some "[2]" }⟩],
+      [ .mk ["a", "zz"] ["c", ""] [] ]⟩]⟩
+
+/-- the hypotheses of the model-level theorems are satisfiable … -/
+example : isOkB (deserializeM exampleModel) = true := by decide +kernel
+
+/-- … and `deserializeM` does reject: a function output that nothing in the function binds -/
+example : isOkB (deserializeM ⟨exampleSSA, [⟨⟨"dom", "f", ""⟩, ["a"], ["nowhere"], [], []⟩]⟩) = false := by
+  decide +kernel
 
 end IrVerif.Scope
